@@ -86,6 +86,8 @@ def gen_cases(rng, count):
             if kind == 3:
                 width = rng.randrange(1, 33); n = (n // 8) * 8
             c['p1'] = width
+            if kind == 1:
+                c['p2'] = rng.choice([0, 0, 1, 2, 3, 4, 5])      # 0: one-shot encoder, else the streaming encoder fed run by run (put_repeat/put)
             vals = run_ints(rng, width, n, rng.randrange(3))
             raw = struct.pack('<%dI' % n, *vals) if kind != 2 else struct.pack('<%dh' % n, *vals)
         elif kind in (4, 5):
